@@ -31,6 +31,10 @@ Clauses(e) ==
          Chk(p.ok = (e.exc = ""), e, "C08.setitems.accept")
          \o (IF p.ok /\ e.exc = "" THEN ShowsDen(e.obs, p.st.ports, e, "setitems") \o Chk(e.obs.op = pre.op, e, "C08.setitems.operator")
              ELSE Chk(e.obs = pre, e, "C08.setitems.refusal-changed-object"))
+    [] e.act = "SetLine" ->     \* port.line = "<op> <xs>" on the live object
+         LET p == SetLineF([op |-> pre.op, items |-> pre.items, ports |-> Canon(pre.ports), sport |-> Canon(pre.sport)], e.op, e.xs) IN
+         Chk(p.ok = (e.exc = ""), e, "C08.setline.accept")
+         \o (IF p.ok /\ e.exc = "" THEN ShowsDen(e.obs, p.st.ports, e, "setline") \o Chk(e.obs.op = e.op, e, "C08.setline.operator") ELSE <<>>)
     [] e.act \in {"WriteBackItems", "WriteBackPorts", "WriteBackSport"} ->
          IF e.exc = ""
          THEN Chk(e.obs = pre, e, "C08.writeback-changed-object." \o e.act)
